@@ -526,7 +526,8 @@ class wildcard_bin_array(object):
         if len(args) == 1:
             if isinstance(args[0], str):
                 value, mask = WildcardBinFactory.str2bin(args[0])
-                self.range_l.extend(WildcardBinFactory.valmask2binlist(value, mask))
+                self.range_l.extend(WildcardBinFactory.valmask2binlist(
+                    value, mask, WildcardBinFactory.str2width(args[0])))
             elif isinstance(args[0], (list,tuple)):
                 # value/mask
                 if len(args[0]) != 2:
@@ -546,7 +547,8 @@ class wildcard_bin_array(object):
                         self.range_l.extend(WildcardBinFactory.valmask2binlist(a[0], a[1]))
                 elif isinstance(a,str):
                     value, mask = WildcardBinFactory.str2bin(a)
-                    self.range_l.extend(WildcardBinFactory.valmask2binlist(value, mask))
+                    self.range_l.extend(WildcardBinFactory.valmask2binlist(
+                        value, mask, WildcardBinFactory.str2width(a)))
                 else:
                     raise Exception("Wildcard bin specification " + str(a) + " is neither value nor range")
                 
